@@ -180,8 +180,11 @@ namespace c16
     static const double alphas[4] = {-1.0, 1.0, 0.5, -2.25};
     const double scb = alphas[c.rng.below(4)], scd = alphas[c.rng.below(4)];
     MatB mb; MatD md;
-    const int variant = int(c.rng.below(3));
-    if(variant == 1) { Assembly::SymbolicAssembler::assemble_matrix_std2(mb, velo, pres); Assembly::SymbolicAssembler::assemble_matrix_std2(md, pres, velo); c.tag("gpdv:preallocated"); }
+    const int variant = int(c.rng.below(4));
+    // targets: empty | pre-sized and filled with other values (the assembler documents that it formats both) | holding the
+    // result of an earlier assembly with other scaling factors (re-assembly on the same objects)
+    if(variant == 1) { Assembly::SymbolicAssembler::assemble_matrix_std2(mb, velo, pres); Assembly::SymbolicAssembler::assemble_matrix_std2(md, pres, velo); mb.format(7.5); md.format(-3.25); c.tag("gpdv:preallocated"); }
+    else if(variant == 3) { Assembly::GradPresDivVeloAssembler::assemble(mb, md, velo, pres, ms.cub_name, scd * 1.5, scb - 3.0); c.tag("gpdv:reassembled"); }
     else c.tag("gpdv:empty_matrices");
     if(variant == 2) Assembly::GradPresDivVeloAssembler::assemble(mb, md, velo, pres, cub, scb, scd);
     else Assembly::GradPresDivVeloAssembler::assemble(mb, md, velo, pres, ms.cub_name, scb, scd);
